@@ -195,6 +195,22 @@ pub fn gen_raw(t: &mut Tape, o: &RawOpts) -> raw::Library {
 }
 
 // ------------------------------------------------------------------ LEF libraries (for LEF -> raw -> LEF)
+/// LEF import case: the library plus, sometimes, a pre-supplied PDK-style layer set (numbers with gaps, some names present)
+pub fn gen_lef_import_case(t: &mut Tape) -> (lef21::LefLibrary, Option<Vec<(i16, &'static str)>>) {
+    let l = gen_lef_for_import(t);
+    let pre = if t.chance(1, 3) {
+        let mut v = Vec::new();
+        for (num, name) in [(64i16, "nwell"), (67, "li1"), (68, "met1"), (70, "met3"), (235, "prBoundary")] {
+            if t.chance(2, 3) {
+                v.push((num, name));
+            }
+        }
+        Some(v)
+    } else {
+        None
+    };
+    (l, pre)
+}
 pub fn gen_lef_for_import(t: &mut Tape) -> lef21::LefLibrary {
     use lef21::*;
     let dec = |t: &mut Tape| LefDecimal::new(t.draw(200_000) as i64 - 20_000, *t.pick(&[0u32, 1, 2, 3, 4]));
